@@ -157,14 +157,15 @@ def run_snip(case, stt):
 def hist_case(draw):
     base = draw(snip_case())
     steps = [draw(st.sampled_from(["same", "n", "frac", "form", "rate", "data", "dtype"])) for _ in range(draw(st.integers(1, 4)))]
-    return {"base": base, "steps": steps, "pick": draw(st.integers(0, 10**6))}
+    return {"base": base, "steps": steps, "pick": draw(st.integers(0, 10**6)), "one_object": draw(st.booleans())}
 
 
 def run_hist(case, stt):
     import copy
 
     cur = copy.deepcopy(case["base"])
-    run_snip(cur, stt)
+    one = G.OneObject(case.get("one_object", False), cur["sig"])
+    one.run(run_snip, cur, stt)
     k = case["pick"]
     for i, step in enumerate(case["steps"]):
         cur = copy.deepcopy(cur)
@@ -186,8 +187,9 @@ def run_hist(case, stt):
         elif step == "dtype":
             allowed = [d for d in G.CLASS_DTYPES[sg["cls"]] if d in FLOATS]
             sg["dtype"] = allowed[(k + i) % len(allowed)]
-        run_snip(cur, stt)
+        one.run(run_snip, cur, stt)
         stt.label("hist_" + step)
+    stt.label("one_object_reassigned" if one.reused > 1 else "fresh_objects")
     stt.nt(len(case["steps"]) >= 2)
 
 
